@@ -4,19 +4,34 @@
 #      (so it never runs coqc/make inside /verif/coq),
 #   2. the extraction lands in <scratch>/ocaml/intern/intern_model.ml(i),
 #   3. ocamlfind ocamlopt links it with replay.ml -> /verif/.build/ocaml-intern/replay.
+# Concurrent checks may call this at the same time: every call works in its own scratch
+# directory and installs the binary with an atomic rename; nothing is rebuilt when the inputs
+# (the four .v files and replay.ml) are the ones the installed binary was built from.
 # Usage: ocaml/intern/build.sh [VERIF_ROOT]   (default /verif)
 set -e
 ROOT="${1:-/verif}"
 B="$ROOT/.build/ocaml-intern"
-mkdir -p "$B/coq/Intern" "$B/ocaml/intern"
-cp "$ROOT/coq/Base.v" "$B/coq/"
-cp "$ROOT/coq/Intern/RetK.v" "$ROOT/coq/Intern/Model.v" "$ROOT/coq/Intern/Extract.v" "$B/coq/Intern/"
-cd "$B/coq"
+mkdir -p "$B"
+STAMP=$(cat "$ROOT/coq/Base.v" "$ROOT/coq/Intern/RetK.v" "$ROOT/coq/Intern/Model.v" \
+            "$ROOT/coq/Intern/Extract.v" "$ROOT/ocaml/intern/replay.ml" | sha256sum | cut -d' ' -f1)
+if [ -x "$B/replay" ] && [ "$(cat "$B/replay.stamp" 2>/dev/null)" = "$STAMP" ]; then
+  echo "up to date $B/replay"
+  exit 0
+fi
+W="$B/work.$$"
+rm -rf "$W"
+mkdir -p "$W/coq/Intern" "$W/ocaml/intern"
+trap 'rm -rf "$W"' EXIT
+cp "$ROOT/coq/Base.v" "$W/coq/"
+cp "$ROOT/coq/Intern/RetK.v" "$ROOT/coq/Intern/Model.v" "$ROOT/coq/Intern/Extract.v" "$W/coq/Intern/"
+cd "$W/coq"
 timeout 300 coqc -Q . Salsa Base.v
 timeout 300 coqc -Q . Salsa Intern/RetK.v
 timeout 300 coqc -Q . Salsa Intern/Model.v
 timeout 300 coqc -Q . Salsa Intern/Extract.v
-cd "$B/ocaml/intern"
+cd "$W/ocaml/intern"
 cp "$ROOT/ocaml/intern/replay.ml" .
-timeout 300 ocamlfind ocamlopt -w -a -package str intern_model.mli intern_model.ml replay.ml -o "$B/replay"
+timeout 300 ocamlfind ocamlopt -w -a -package str intern_model.mli intern_model.ml replay.ml -o "$W/replay"
+mv -f "$W/replay" "$B/replay"
+echo "$STAMP" > "$B/replay.stamp"
 echo "built $B/replay"
